@@ -1,6 +1,6 @@
 SPECIFICATION SimSpec
 CONSTANTS
-  Parties = {"p1", "p2", "p3", "p4", "p5"}
+  Parties = {"p1", "p2", "p3", "p4", "p5", "p6"}
   Creator = "p1"
   MaxCommits = 40
   MaxProps = 40
@@ -10,18 +10,18 @@ CONSTANTS
   EncChoices = {FALSE, TRUE}
   ByValueMax = 2
   AllowConflicts = FALSE
-  Features = {"succ", "reinit", "gce"}
+  Features = {"extcommit", "custom", "storage", "apps"}
   Window = 1024
-  Retention = 2
+  Retention = 3
   BurstSizes = {1, 2}
   PskIds = {}
   PskValues = {"none"}
   JitterChoices = {99999}
   Deviations = {"F12", "F14"}
-  MaxApps = 0
+  MaxApps = 30
   MaxSucc = 6
-  Depth = 60
-  BootSize = 4
+  Depth = 70
+  BootSize = 0
   WProgress = 62
   WPropose = 30
   WCommit = 35
